@@ -165,3 +165,10 @@ impl Engine for MVRegEng {
         path.contains(".add") || path.contains(".rm")
     }
 }
+
+impl crate::drive::Driveable for MVRegEng {
+    fn random_cmd(_s: &S, rng: &mut rand::rngs::StdRng, d: &Dims) -> Option<Value> {
+        use rand::Rng;
+        Some(json!({"c": "write", "v": rng.gen_range(1..=d.m.max(1)) as u64}))
+    }
+}
